@@ -139,3 +139,7 @@ fn process_snapshots<S: Open>(
 
     Ok(snapshots)
 }
+
+#[cfg(kani)]
+#[path = "/verif/harness/commands_rewrite.rs"]
+pub(crate) mod verif_harness;
